@@ -94,10 +94,13 @@ func (c *ClientConn) closeWithErrorWithoutLock(err error) {
 	if err == nil {
 		err = io.EOF
 	}
-	for _, h := range c.handlers {
+	// Detach the list first: a callback that panics must not leave the
+	// callbacks already invoked queued for a second invocation.
+	handlers := c.handlers
+	c.handlers = nil
+	for _, h := range handlers {
 		h.h(nil, c.conn, err)
 	}
-	c.handlers = nil
 	if c.conn != nil {
 		nbc, ok := c.conn.(*nbio.Conn)
 		if !ok {
@@ -143,10 +146,12 @@ func (c *ClientConn) onResponse(conn net.Conn, res *http.Response, err error) {
 	defer c.mux.Unlock()
 
 	if !c.closed && c.conn == conn && len(c.handlers) > 0 {
+		// Pop before invoking: a callback that panics has still been
+		// invoked and must not receive the next response as well.
 		head := c.handlers[0]
+		c.handlers = c.handlers[1:]
 		head.h(res, c.conn, err)
 
-		c.handlers = c.handlers[1:]
 		if len(c.handlers) > 0 {
 			next := c.handlers[0]
 			timeout := c.Timeout
